@@ -408,3 +408,83 @@ def check_c08(prop, tier, seed):
     plan.append(('opt', programs.cross2('opt', ('GTS', 'GTI', 'GTX', 'PRV', 'GTIUP'), ('S', 'SIX', 'UPG', 'XSV0'), tag='rep'),
                  dict(pb=3, max_exec=3000 if q else 40000)))
     return hb_trace_check(prop, tier, seed, plan)
+
+
+# ------------------------------------------------------------------------------------------------
+# generic: explore lock programs, project every execution to an event stream, validate with TLC
+# ------------------------------------------------------------------------------------------------
+def stream_check(prop, tier, seed, plan, proj, spec_name, cfg_name, describe, statuses=('ok',), max_rounds=3):
+    bdir = vlib.build(4)
+    workdir = os.path.join(OUT, 'work', prop)
+    os.makedirs(workdir, exist_ok=True)
+    prog_text = {}
+    for cls, progs, par in plan:
+        for p in progs:
+            prog_text[p.split()[1]] = (cls, p)
+    from concurrent.futures import ThreadPoolExecutor
+
+    def run_item(item):
+        k, (cls, progs, par) = item
+        return explore_lock(bdir, cls, progs, workdir, par.get('pb', 2), par.get('max_exec', 4000), seed,
+                            mode=par.get('mode', 'dfs'), tag='%s%d' % (cls, k))
+    execs = []
+    allex = []
+    with ThreadPoolExecutor(max_workers=6) as pool:
+        for ex in pool.map(run_item, list(enumerate(plan))):
+            allex.extend(ex)
+            execs.extend(e for e in ex if e.status in statuses)
+    groups = vlib.dedup_histories(execs, lambda ex: proj(ex, prog_text[ex.prog][1]))
+    groups = [g for g in groups if g[0]]
+    hists = [g[0] for g in groups]
+    reps = [g[1] for g in groups]
+    spec = os.path.join(SPEC, spec_name)
+    cfg = os.path.join(SPEC, 'cfg', cfg_name)
+    rej, st = vlib.validate_until_clean(spec, cfg, hists, workdir, prop.lower(), max_rounds=max_rounds)
+    violations = []
+    for r in rej[:10]:
+        ex = reps[r['hist']]
+        h = hists[r['hist']]
+        cls, ptext = prog_text[ex.prog]
+        bad = h[r['line']] if r['line'] < len(h) else {'e': 'end-of-stream'}
+        desc, sig = describe(ex, h, r['line'], bad)
+        violations.append({'desc': '%s: program %s (schedule %s): %s' % (prop, ex.prog, ex.sched, desc),
+                           'signature': ['cls:' + cls] + sig,
+                           'replay': {'kind': 'lock-stream', 'cls': cls, 'program': ptext, 'schedule': ex.sched, 'n': 4,
+                                      'spec': spec_name}})
+    cov = {
+        'states': max(1, st['distinct']), 'transitions': max(1, st['states']),
+        'traces_validated_against_impl': len(execs), 'distinct_streams': len(hists),
+        'events_validated': st['events'], 'programs': len(prog_text), 'exec_status': status_counts(allex),
+        'samples': [{'program': reps[i].prog, 'schedule': reps[i].sched, 'stream_head': hists[i][:16]}
+                    for i in range(0, len(hists), max(1, len(hists) // 2))][:2],
+        'rejected_streams': len(rej), 'unexamined_streams': st.get('unexamined', 0),
+    }
+    return {'level': 'model_checking', 'violations': violations, 'coverage': cov, 'assumptions': list(LOCK_ASSUME)}
+
+
+@register('C12')
+def check_c12(prop, tier, seed):
+    q = tier == 'quick'
+    plan = [('mcs', programs.cross2('mcs'), dict(pb=2 if q else 3, max_exec=3000 if q else 60000)),
+            ('mcs', programs.cross3('mcs', MODES3, MODES3, MODES3), dict(pb=2, max_exec=1500 if q else 30000)),
+            ('mcs', programs.cross3('mcs', CONV, MODES3, MODES3), dict(pb=1 if q else 2, max_exec=600 if q else 20000)),
+            ('mcs', programs.twosec('mcs') + programs.twolocks('mcs') + programs.handover('mcs') + programs.guards('mcs'),
+             dict(pb=2, max_exec=2500 if q else 30000))]
+    if not q:
+        plan.append(('mcs', programs.random_programs('mcs', 40, seed), dict(pb=2, max_exec=4000)))
+
+    def describe(ex, h, line, bad):
+        k = bad.get('e')
+        what = {'acc': 'atomic access to queue node %s which is not alive (freed or recycled)' % bad.get('n'),
+                'free': 'queue node %s freed although it is not alive (double free)' % bad.get('n'),
+                'alloc': 'allocating %s exceeds the bound live nodes <= running threads + outstanding requests' % bad.get('n'),
+                'final': 'queue nodes are still alive after all guards were released and all threads exited (leak)',
+                }.get(k, 'unexplained event %s' % bad)
+        return what, ['ev:' + str(k)]
+    res = stream_check(prop, tier, seed, plan, lambda ex, ptext: vlib.node_stream(ex), 'NodeTrace.tla', 'NodeTrace.cfg', describe)
+    res['assumptions'] += ['node = every 8-byte allocation made by a virtual thread through the global operator new (MCSLock queue '
+                           'nodes); freed nodes are quarantined by the harness, so a late access is observed, not undefined',
+                           'recycling through the per-thread cache is observable only when the cached node is freed (cache '
+                           'replacement or thread exit); a node reused from the cache while another thread still holds a reference '
+                           'is left to the compatibility/progress checks']
+    return res
